@@ -29,6 +29,22 @@ def run(ctx):
         ctx.cov["states"] += r["distinct"]
         ctx.cov["transitions"] += r["generated"]
         os.remove(r["out_path"])
+    # the same skeleton for any set of root moves and any number of passes: inductive invariant proved with TLAPS
+    import re, shutil, subprocess
+    from vlib import SPEC
+    d = os.path.join(ctx.work, "tlaps")
+    os.makedirs(d)
+    for f in ("Search.tla", "SearchProofs.tla"):
+        shutil.copy(os.path.join(SPEC, f), d)
+    p = subprocess.run(["timeout", "1200", "tlapm", "--threads", "6", "SearchProofs.tla"], cwd=d, stdout=subprocess.PIPE, stderr=subprocess.STDOUT, text=True)
+    m = re.search(r"All (\d+) obligations? proved", p.stdout)
+    failed = re.search(r"(\d+)/(\d+) obligations? failed", p.stdout)
+    if m:
+        ctx.cov["steps"].append({"step": "tlapm SearchProofs.tla", "obligations": int(m.group(1)), "discharged": int(m.group(1))})
+    elif failed:
+        ctx.violation("search-skeleton-proof", {"failed": failed.group(0), "tail": p.stdout[-600:]}, {"kind": "tlapm", "module": "SearchProofs"})
+    else:
+        raise ToolError("tlapm did not report a result: %s" % p.stdout[-1200:])
     plans = [
         ("allk", "perft,check,clock", 6 if quick else 14, 12000 if quick else 400000, 400 if quick else 6000),
         ("allk", "nb", 4 if quick else 14, 12000 if quick else 400000, 400 if quick else 6000),
